@@ -9,7 +9,7 @@ CONSTANTS Calls, Causes
 VARIABLES recorded, fanned     \* side -> recorded cause class ("" none); side -> fan-out done
 mvars == <<vars, recorded, fanned>>
 Init == /\ blocked = <<>> /\ cause = [x \in Sides |-> NoCause] /\ seen = [x \in Sides |-> {}]
-        /\ lastRecv = [x \in Sides |-> 0] /\ firstSend = [x \in Sides |-> -1] /\ idle = 0 /\ ka = FALSE /\ step = NoStep
+        /\ lastRecv = [x \in Sides |-> 0] /\ firstSend = [x \in Sides |-> -1] /\ idle = [x \in Sides |-> 0] /\ ka = FALSE /\ step = NoStep
         /\ recorded = [x \in Sides |-> ""] /\ fanned = [x \in Sides |-> FALSE]
 Block == \E id \in Calls, x \in Sides : id \notin DOMAIN blocked /\ recorded[x] = "" /\ Blocked(id, x) /\ UNCHANGED <<recorded, fanned>>
 \* a cause arrives at side x: only the first is recorded
@@ -19,10 +19,10 @@ Arrive == \E x \in Sides, k \in Causes :
 \* the run loop fans the recorded cause out: one call at a time, then the context
 FanOut == \E x \in Sides : recorded[x] # "" /\ ~fanned[x] /\
   IF \E id \in DOMAIN blocked : blocked[id] = x
-  THEN \E id \in DOMAIN blocked : blocked[id] = x /\ Returned(id, x, recorded[x], 0, FALSE, 0) /\ UNCHANGED <<recorded, fanned>>
+  THEN \E id \in DOMAIN blocked : blocked[id] = x /\ Returned(id, x, recorded[x], 0, FALSE, 0, FALSE) /\ UNCHANGED <<recorded, fanned>>
   ELSE Ctx(x, recorded[x], 0) /\ fanned' = [fanned EXCEPT ![x] = TRUE] /\ UNCHANGED recorded
 \* a call made after the end returns at once with the recorded cause
-Late == \E id \in Calls, x \in Sides : id \notin DOMAIN blocked /\ fanned[x] /\ Returned(id, x, recorded[x], 0, FALSE, 0) /\ UNCHANGED <<recorded, fanned>>
+Late == \E id \in Calls, x \in Sides : id \notin DOMAIN blocked /\ fanned[x] /\ Returned(id, x, recorded[x], 0, FALSE, 0, FALSE) /\ UNCHANGED <<recorded, fanned>>
 Next == Block \/ Arrive \/ FanOut \/ Late
 Spec == Init /\ [][Next]_mvars /\ WF_mvars(FanOut)
 NothingBlockedAfterFanOut == \A x \in Sides : fanned[x] => ~\E id \in DOMAIN blocked : blocked[id] = x
